@@ -641,4 +641,38 @@ theorem uncaught_err_eq (t : Thrown) (h : Spec.staleText t = false) : catchPanic
     simp only [runErrorText] at ht
     simp only [catchPanicErr, Spec.uncaughtErr, ht]
 
+/-! ## several errors alive at once -/
+
+theorem createErrors_append (limit : Int) (scs : List Scenario) : ∀ store : ErrorStore,
+    createErrors limit store scs = store ++ scs.map (traceFrames limit) := by
+  induction scs with
+  | nil => intro store; simp [createErrors]
+  | cons sc r ih => intro store; simp [createErrors, createError, ih]
+
+/-- An error keeps the trace of its own creation: whatever errors the runtime created before (`earlier`) and however
+    many it creates afterwards (`later` – engine-raised or constructed, caught or not), reading the error's trace
+    gives the frames `newError` computed for it. -/
+theorem trace_survives_later_errors (limit : Int) (earlier later : List Scenario) (sc : Scenario) :
+    readTrace (createErrors limit [] (earlier ++ sc :: later)) earlier.length = some (traceFrames limit sc) := by
+  simp [readTrace, createErrors_append]
+
+/-- … and therefore, outside the regions, what is read later is the spec trace of that error -/
+theorem traces_later_eq (files : List FileEnt) (limit : Int) (scs : List Scenario)
+    (h : ∀ sc ∈ scs, Spec.traceDevs sc = [] ∧ ∀ lv ∈ sc.levels, 0 ≤ lv.off) :
+    (createErrors limit [] scs).map (fun fs => fs.map (location files)) = Spec.tracesLater files limit scs := by
+  simp only [createErrors_append, List.nil_append, List.map_map, Spec.tracesLater]
+  apply List.map_congr_left
+  intro sc hsc
+  have := trace_complete_partial files limit sc (h sc hsc).1 (h sc hsc).2
+  simpa [trace] using this
+
+/-- a shared scratch buffer would not do: if every error held a view of one buffer that the next `newError`
+    refills, the earlier error would show the later error's frames -/
+example :
+    let f1 : Frame := { callee := "first", file := some 0, offset := 10 }
+    let f2 : Frame := { callee := "second", file := some 0, offset := 20 }
+    let own : ErrorStore := [[f1], [f2]]
+    let shared : ErrorStore := [[f2].take 1, [f2]]          -- view of length 1 into the refilled buffer
+    readTrace own 0 = some [f1] ∧ readTrace shared 0 = some [f2] := by decide
+
 end OttoVerif.C19.Thm
